@@ -1389,6 +1389,8 @@ class BaseImage(metaclass=ImageMeta):
             left = right = ""
 
         if height > lines:
+            # Padding lines must span the full width of the [horizontally-padded] render
+            width = max(width, cols)
             if v_align == "^":  # top
                 top = 0
                 bottom = height - lines
